@@ -459,4 +459,64 @@ def fold_readonly(m: Model):
             except EXC + (AttributeError,) as e:
                 outcome2 = f'raises {type(e).__name__}'
             results.append((outcome2 == 'accepted', f'{n}: first assignment of an attribute (construction)', f'is {outcome2}; items are constructed after init(), their constructors must still be able to set attributes'))
+    # 4. names with leading underscores are attributes like any other (the read-only flag itself, Enum's _value_ / _name_)
+    for n in names[3:]:
+        ref = ClassRef(LEX, n)
+        C = byname[n]
+        try:
+            setter, owner = resolve(ref)
+        except EXC:
+            continue
+        for attr in ('_value_', '_readonly', '__private'):
+            inst = C()
+            object.__setattr__(inst, attr, 'ORIGINAL')
+            try:
+                setter(inst, attr, 'CHANGED')
+                outcome = 'accepted'
+            except AttributeError:
+                outcome = 'refused'
+            except EXC as e:
+                outcome = f'raises {type(e).__name__}: {getattr(e, "text", e)}'
+            ok = outcome == 'refused' and getattr(inst, attr) == 'ORIGINAL'
+            results.append((ok, f'{n}: changing the attribute {attr} after initialisation',
+                            f'`item.{attr} = ...` on a {n} is {outcome}; the setter comes from {owner.qualname if owner else "object"} -- expected AttributeError and no change'))
+    # 5. the classes themselves: the metaclass setters refuse every write once _readonly is on (the flag included)
+    for meta, targets in (('LangCommonMeta', ('LexicalAbc', 'Predicate', 'Operated')), ('LangCommonEnumMeta', ('LexicalEnum', 'Operator', 'Quantifier'))):
+        mref = ClassRef(LANG, meta)
+        try:
+            raw = m.clsns(mref).get('__setattr__')
+        except Exception as e:
+            raise AnalysisError(f'lang.{meta} not readable: {e}')
+        if not (isinstance(raw, tuple) and raw[0] == 'expr'):
+            v = m.force(raw) if raw is not None else None
+            if v is None or not hasattr(v, 'node'):
+                results.append((False, f'{meta}: class-level setter', f'lang.{meta} defines no __setattr__: the classes it makes are writable after init()'))
+                continue
+            msetter = lambda obj, name, value, fn=v.node: ite.call(fn, [obj, name, value])
+        else:
+            expr = raw[1] if isinstance(raw[1], ast.AST) else ast.parse(raw[1], mode='eval').body
+            consulted.add(f'{m.relfile(LANG)} {meta}.__setattr__ = {ast.unparse(expr)}')
+            try:
+                msetter = ite.ev(expr, {})
+            except EXC as e:
+                results.append((False, f'{meta}: class-level setter', f'evaluating `{ast.unparse(expr)}` raises {type(e).__name__}: {getattr(e, "text", e)}'))
+                continue
+        for tn in targets:
+            C = byname[tn]
+            if not getattr(C, '_readonly', False):
+                results.append((False, f'{tn}: read-only flag', f'after lang.init() the class {tn} does not see _readonly = True through its bases'))
+                continue
+            for attr, val in (('_readonly', False), ('TYPE', 'OTHER'), ('_seq', ()), ('brand_new', 1)):
+                D = type(tn, (C,), {'TYPE': 'ORIGINAL', '_seq': ('ORIGINAL',)})
+                before = getattr(D, attr, None)
+                try:
+                    msetter(D, attr, val)
+                    outcome = 'accepted'
+                except AttributeError:
+                    outcome = 'refused'
+                except EXC as e:
+                    outcome = f'raises {type(e).__name__}: {getattr(e, "text", e)}'
+                ok = outcome == 'refused' and getattr(D, attr, None) == before
+                results.append((ok, f'{tn} (class): assigning {attr} after initialisation',
+                                f'`{tn}.{attr} = {val!r}` is {outcome} by {meta}.__setattr__ -- expected AttributeError: with the flag off every item becomes writable'))
     return results, sorted(consulted)
